@@ -41,7 +41,7 @@ STMT = [
 TARGET_NEST = [("ttuple", "(", ",)"), ("tlist", "[", "]"), ("tstar", "(*", ",)"), ("tparen", "(", ")"), ("tattr", "", ".b"), ("tsub", "", "[0]")]
 PATTERN_NEST = [("plist", "[", "]"), ("ptuple", "(", ",)"), ("pclass", "C(", ")"), ("pmap", "{1: ", "}"), ("por", "", " | 2"), ("pas", "(", " as z)")]
 BLOCKS = [("if", "if a:\n"), ("while", "while a:\n"), ("for", "for i in j:\n"), ("def", "def f():\n"), ("class", "class C:\n"), ("with", "with a as b:\n"),
-          ("try", "try:\n"), ("elif", "if a:\n    pass\nelif b:\n"), ("async", "async def f():\n")]
+          ("try", "try:\n"), ("elif", "if a:\n    pass\nelif b:\n"), ("async", "async def f():\n"), ("tryexc", "try:\n"), ("match", "match a:\n  case b:\n")]
 CHAINS = [
     ("add", "a", " + a"), ("args", "f(a", ", a", ")"), ("dict", "{1: a", ", 1: a", "}"), ("semi", "a", "; a"), ("strs", "'s'", " 's'"),
     ("attr", "a", ".b"), ("subs", "a", "[0]"), ("cmp", "a", " < a"), ("ifelse", "a", " if a else a"), ("assigns", "x", " = x", " = 1"),
@@ -58,7 +58,8 @@ def units(tier: str) -> list[tuple]:
         us.append(("pairs", i, tier))
     us.append(("targets", tier))
     us.append(("patterns", tier))
-    us.append(("blocks", tier))
+    for i in range(len(BLOCKS)):
+        us.append(("blocks", i, tier))
     us.append(("chains", tier))
     for i in range(len(PREFIX_STMTS)):
         for j in range(len(PREFIX_TAILS)):
@@ -125,10 +126,11 @@ def cases(unit: tuple) -> Iterator[dict]:
                     yield {"family": f"pattern:{c1[0]}/{c2[0]}:{term[0]}", "kind": "pair", "c1": list(c1), "c2": list(c2), "term": list(term),
                            "tmpl": STMT[6][1], "sizes": [s for s in sizes(tier) if s <= 32]}
     elif k == "blocks":
-        for b1 in BLOCKS:
+        for b1 in BLOCKS[unit[1] : unit[1] + 1]:
             for b2 in BLOCKS:
-                for leaf in ("pass", "a b", "", "x = (", "return (1,"):
-                    yield {"family": f"block:{b1[0]}/{b2[0]}:{leaf or 'empty'}", "kind": "block", "b1": list(b1), "b2": list(b2), "leaf": leaf,
+                for leaf in ("pass", "a b", "", "x = (", "return (1,", "pass\0x @@", "pass\0y = (1,"):
+                    # "\0": what follows is a statement at top level, after the whole nest (the error lies elsewhere)
+                    yield {"family": f"block:{b1[0]}/{b2[0]}:{leaf.replace(chr(0), ' then ') or 'empty'}", "kind": "block", "b1": list(b1), "b2": list(b2), "leaf": leaf,
                            "sizes": [s for s in sizes(tier) if s <= 32]}
     elif k == "prefixed":
         st = PREFIX_STMTS[unit[1]]
@@ -154,13 +156,16 @@ def build(case: dict, d: int) -> str:
             src += textwrap.indent(b[1], "    " * k)
             if b[0] == "try" :
                 pass
-        src += "    " * d + (case["leaf"] or "") + "\n"
+        leaf, _, after = (case["leaf"] or "").partition("\0")
+        src += "    " * d + leaf + "\n"
         # close try blocks so that the valid variant is valid
         for k in reversed(range(d)):
             b = case["b1"] if k % 2 == 0 else case["b2"]
             if b[0] == "try":
                 src += "    " * k + "finally:\n" + "    " * (k + 1) + "pass\n"
-        return src
+            elif b[0] == "tryexc":
+                src += "    " * k + "except E:\n" + "    " * (k + 1) + "pass\n"
+        return src + (after + "\n" if after else "")
     ch = case["chain"]
     head, rep = ch[1], ch[2]
     close = ch[3] if len(ch) > 3 else ""
